@@ -38,4 +38,5 @@ pub fn new() -> ServerBuilder {
 #[doc(hidden)]
 pub mod verif {
     pub use crate::{accept::verif::*, socket::MioStream, worker::verif::*};
+    pub use crate::worker::verif_inthread::*;
 }
